@@ -75,6 +75,9 @@ pub struct ModelTable {
     pub pending_maybe: Option<FlowKey>,
     /// the model could not follow the real table (data on a flow whose cookie it never learned)
     pub desync: bool,
+    /// flows on which a data segment could not be judged (cookie unknown at that time): whether
+    /// they are validated is unknown from then on
+    pub unknown: std::collections::BTreeSet<FlowKey>,
 }
 
 impl ModelTable {
@@ -83,6 +86,7 @@ impl ModelTable {
     }
     pub fn reset_flows(&mut self) {
         self.flows.clear();
+        self.unknown.clear();
     }
     pub fn digest(&self) -> String {
         let mut s = String::new();
@@ -410,9 +414,15 @@ impl Model {
                     let seq = t.ack;
                     let ack = t.seq.wrapping_add(t.payload.len() as u32);
                     let valid_ack = cookie.map(|c| t.ack == c.wrapping_add(1));
+                    if !validated && tbl.unknown.contains(&key) {
+                        return L4Expect::Abstain("cookie of this flow not learned when an earlier segment arrived".into());
+                    }
                     if !validated {
                         match valid_ack {
-                            None => return L4Expect::Abstain("cookie of this flow not learned".into()),
+                            None => {
+                                tbl.unknown.insert(key);
+                                return L4Expect::Abstain("cookie of this flow not learned".into());
+                            }
                             Some(false) => return L4Expect::Silent("C07", "data-without-valid-cookie"),
                             Some(true) => {}
                         }
